@@ -6,7 +6,8 @@
    CREATE/DELETE/RENAME/APPEND/COPY/MOVE/EXPUNGE (any UID list, so also the highest UID)/connector mailbox creation,
    message batches, UIDVALIDITY bump/Restart, with any pattern of failing connector calls. *)
 From Coq Require Import List ZArith NArith Bool.
-From Gluon Require Import Gen.FactsLimits Model.UidValidityGen Model.MailStore Proofs.MailStoreBase Proofs.MailStoreWf Proofs.MailStoreC04.
+From Gluon Require Import Gen.FactsLimits Model.UidValidityGen Model.MailStore Model.MailStoreUpdate Proofs.MailStoreBase Proofs.MailStoreWf
+  Proofs.MailStoreC04 Proofs.MailStoreUpdate.
 Import ListNotations.
 Open Scope Z_scope.
 
@@ -143,6 +144,69 @@ Proof.
 Qed.
 Print Assumptions C04_uidvalidity_monotone_refuted.
 
+(* ---- connector MessageUpdated (Model/MailStoreUpdate.v: applyMessageUpdated + setMessageMailboxes) ----
+   `xrun` interleaves MessageUpdated - refresh (the literal gluon has) or replacement (another literal), announcing any
+   list of mailboxes - with all the operations above. The UID theorems hold for these histories as well: *)
+Theorem C04_update_uid_strictly_increasing : forall hash fx c clock s h l1 e l2 e' l3, wf s ->
+  s_log (xrun hash fx c clock s h) = l1 ++ e :: l2 ++ e' :: l3 -> e_id e = e_id e' -> e_uid e < e_uid e'.
+Proof. exact xuid_strictly_increasing. Qed.
+Print Assumptions C04_update_uid_strictly_increasing.
+
+Theorem C04_update_uid_never_reused : forall hash fx c clock s h, wf s ->
+  (exists n, s_log (xrun hash fx c clock s h) = s_log s ++ n) /\
+  (forall e e', In e (s_log (xrun hash fx c clock s h)) -> In e' (s_log (xrun hash fx c clock s h)) ->
+                e_id e = e_id e' -> e_uid e = e_uid e' -> e = e') /\
+  (forall m r, In m (s_mboxes (xrun hash fx c clock s h)) -> In r (mb_rows m) ->
+               exists v, In (mb_id m, v, fst r, snd r) (s_log (xrun hash fx c clock s h))).
+Proof. exact xuid_never_reused. Qed.
+Print Assumptions C04_update_uid_never_reused.
+
+Theorem C04_update_uidnext_bounds : forall hash fx c clock s h m e, wf s ->
+  In m (s_mboxes (xrun hash fx c clock s h)) -> In e (s_log (xrun hash fx c clock s h)) -> e_id e = mb_id m ->
+  1 <= e_uid e < mb_seq m + 1.
+Proof. exact xuidnext_bounds. Qed.
+Print Assumptions C04_update_uidnext_bounds.
+
+Theorem C04_update_uidnext_monotone : forall hash fx c clock s h m m', wf s ->
+  In m (s_mboxes s) -> In m' (s_mboxes (xrun hash fx c clock s h)) -> mb_id m = mb_id m' -> mb_seq m + 1 <= mb_seq m' + 1.
+Proof. exact xuidnext_monotone. Qed.
+Print Assumptions C04_update_uidnext_monotone.
+
+(* a refresh that announces exactly the mailboxes the message is in changes nothing at all: no UID is assigned, no
+   UIDNEXT moves *)
+Theorem C04_refresh_is_identity : forall c s n u ns m r targets,
+  find_name n (s_mboxes s) = Some m -> find_row u (mb_rows m) = Some r -> target_ids ns (s_mboxes s) = Some targets ->
+  (forall i, In i targets -> nmem i (holder_ids (fst (snd r)) (s_mboxes s)) = true) ->
+  (forall i, In i (holder_ids (fst (snd r)) (s_mboxes s)) -> nmem i targets = true) ->
+  conn_update c s n u None ns = (s, ResOk []).
+Proof. exact refresh_identity. Qed.
+Print Assumptions C04_refresh_is_identity.
+
+(* any successful refresh: a mailbox that holds the message and is announced - and a mailbox that neither holds it nor is
+   announced - keeps its rows (UID -> message) and its UIDNEXT *)
+Theorem C04_refresh_keeps_uid_table : forall c s n u ns s' a m0 r targets,
+  find_name n (s_mboxes s) = Some m0 -> find_row u (mb_rows m0) = Some r ->
+  target_ids ns (s_mboxes s) = Some targets -> conn_update c s n u None ns = (s', ResOk a) ->
+  forall j m, find_id j (s_mboxes s) = Some m ->
+  nmem j targets = nmem j (holder_ids (fst (snd r)) (s_mboxes s)) ->
+  exists m', find_id j (s_mboxes s') = Some m' /\ mb_rows m' = mb_rows m /\ mb_seq m' = mb_seq m.
+Proof. exact refresh_keeps_held. Qed.
+Print Assumptions C04_refresh_keeps_uid_table.
+
+(* a successful replacement: in every mailbox the rows of the old message go, every other row keeps its UID, and the new
+   message (a new internal id, the new literal) gets the UIDs from the mailbox's UIDNEXT on - hence above every UID ever
+   assigned there (C04_uidnext_bounds), the old UID is not handed out again - in exactly the announced mailboxes (k > 0) *)
+Theorem C04_replacement_assigns_fresh_uids : forall c s n u l ns s' a m0 r,
+  find_name n (s_mboxes s) = Some m0 -> find_row u (mb_rows m0) = Some r ->
+  conn_update c s n u (Some l) ns = (s', ResOk a) ->
+  exists targets, target_ids ns (s_mboxes s) = Some targets /\
+  forall j m, find_id j (s_mboxes s) = Some m ->
+  exists m' k, find_id j (s_mboxes s') = Some m' /\
+    mb_rows m' = without (fst (snd r)) (mb_rows m) ++ assign (mb_seq m) (repeat (s_nextmsg s, l) k) /\
+    mb_seq m' = mb_seq m + Z.of_nat k /\ ((0 < k)%nat <-> nmem j targets = true).
+Proof. exact replacement_rows. Qed.
+Print Assumptions C04_replacement_assigns_fresh_uids.
+
 (* non-vacuity: the start state satisfies the hypotheses; expunging the highest UID and appending again yields a
    higher UID, also across a restart *)
 Example C04_init_ok : wf (init_store 100) /\ gen_bound (init_store 100).
@@ -153,3 +217,15 @@ Example C04_expunge_highest_then_append :
      ORestart; OAppend inbox_name 3%N RemFail; OAppend inbox_name 3%N RemOk])
   = [(1, 1%N); (3, 3%N)].
 Proof. vm_compute. reflexivity. Qed.
+(* MessageUpdated: a refresh leaves UID 2 where it is; a replacement of the message at UID 2 by literal 9 removes UID 2
+   and puts literal 9 at UID 3 (and at UID 1 of the second announced mailbox); UID 2 is never handed out again *)
+Example C04_refresh_then_replacement :
+  let cf := mkCfg 1000 1000 100000 1000 in
+  let s2 := xrun (fun l => Some l) facts_fixed cf (fun _ => 100) (init_store 100)
+    [XOp (OConnCreate inbox_name); XOp (OCreate [3%N] true); XOp (OAppend inbox_name 1%N RemOk);
+     XOp (OAppend inbox_name 2%N RemOk); XUpdate inbox_name 2 None [inbox_name]] in
+  let s3 := xrun (fun l => Some l) facts_fixed cf (fun _ => 100) s2
+    [XUpdate inbox_name 2 (Some 9%N) [inbox_name; [3%N]]; XOp (OAppend inbox_name 4%N RemOk)] in
+  rows_of inbox_name s2 = [(1, 1%N); (2, 2%N)] /\
+  rows_of inbox_name s3 = [(1, 1%N); (3, 9%N); (4, 4%N)] /\ rows_of [3%N] s3 = [(1, 9%N)].
+Proof. vm_compute. repeat split. Qed.
